@@ -107,7 +107,17 @@ def plan(case):
         ncs = list(proc.get_nodes(p, default_value=rhs))
     except E["YPE"]:
         return "ype", None
+    except Exception:  # noqa  the Processor itself crashed on this path (C15's subject, F-C11-4)
+        return "processor-crash", None
     locs = [locate(lhs, nc) for nc in ncs]
+    for loc in locs:
+        cur = lhs
+        for t, r in loc:
+            try:
+                cur = cur[r]
+            except Exception:  # noqa
+                # the yielded node is not (any longer) reachable at its coordinates: partial path creation
+                return "unresolvable-target", None
     if (not is_root and not isinstance(rhs, (dict, list)) and not docenc.is_set(rhs) and has_set(lhs)
             and any(not isinstance(nc.node, (dict, list)) and not docenc.is_set(nc.node) for nc in ncs)):
         return "setvalue-with-set", None      # Processor.set_value crashes (F-C11-3): not this model's subject
@@ -231,6 +241,8 @@ def judge(case, obs):
         ncs = list(proc.get_nodes(p, default_value=rhs))
     except E["YPE"]:
         return None if line.startswith("(raise") else "an uncreatable path was not reported: %s" % line[:60]
+    except Exception as e:  # noqa
+        return "path evaluation crashed with %s" % type(e).__name__
     if not ncs:
         return None if line.startswith("(raise") else "an unmatched path was not reported: %s" % line[:60]
     created = c05.plain(lhs)
@@ -303,7 +315,7 @@ def _scalar_rhs_targets(case):
         return False, [], None
     try:
         ncs = list(E["Processor"](C["log"], lhs).get_nodes(E["YAMLPath"](path), default_value=rhs))
-    except E["YPE"]:
+    except Exception:  # noqa
         return False, [], None
     return True, [nc.node for nc in ncs], lhs
 
@@ -325,7 +337,26 @@ def set_value_with_set_in_doc(case, obs):
     return ok and has_set(lhs) and any(not isinstance(n, (dict, list)) and not docenc.is_set(n) for n in nodes)
 
 
-FINDING_PREDS = {"returned_result_dropped": returned_result_dropped, "aoh_default_governs_non_aoh": aoh_default,
+def processor_path_crash(case, obs):
+    """F-C11-4: Processor.get_nodes itself raises a non-YAMLPath exception for
+    the --mergeat path on this left document (C15's defect, e.g. a search
+    segment over a list holding null)"""
+    lhs_t, rhs_t, path, opts = case
+    E, C = _ENV, c05._ENV
+    lhs = c05.load(lhs_t)
+    rhs = c05.load(rhs_t)
+    if lhs is None or rhs is None:
+        return False
+    try:
+        list(E["Processor"](C["log"], lhs).get_nodes(E["YAMLPath"](path), default_value=rhs))
+    except E["YPE"]:
+        return False
+    except Exception:  # noqa
+        return True
+    return False
+
+
+FINDING_PREDS = {"processor_path_crash": processor_path_crash, "returned_result_dropped": returned_result_dropped, "aoh_default_governs_non_aoh": aoh_default,
                  "scalar_at_multi_target": scalar_at_multi_target,
                  "set_value_with_set_in_doc": set_value_with_set_in_doc}
 
